@@ -611,8 +611,19 @@ func (h *RealtimeHandler) HandleEntityComponentAdd(ctx context.Context, respond 
 			WithTag("msg_type", msg.Type)
 	}
 
-	entity, ok := session.EntityByID(req.EntityId)
-	if !ok {
+	entityComponent := hagallpb.EntityComponent{
+		EntityComponentTypeId: req.EntityComponentTypeId,
+		EntityId:              req.EntityId,
+		Data:                  req.Data,
+	}
+
+	// The entity cannot be removed while the component is added to it: either
+	// the removal that follows takes the component with it, or the entity is
+	// already gone and nothing is added.
+	var err error
+	if ok := session.WithEntity(req.EntityId, func(*models.Entity) {
+		err = session.GetEntityComponents().Add(&entityComponent)
+	}); !ok {
 		respond.Send(&hagallpb.ErrorResponse{
 			Type:      hagallpb.MsgType_MSG_TYPE_ERROR_RESPONSE,
 			Timestamp: timestamppb.Now(),
@@ -622,13 +633,7 @@ func (h *RealtimeHandler) HandleEntityComponentAdd(ctx context.Context, respond 
 		return nil
 	}
 
-	entityComponent := hagallpb.EntityComponent{
-		EntityComponentTypeId: req.EntityComponentTypeId,
-		EntityId:              entity.ID,
-		Data:                  req.Data,
-	}
-
-	if err := session.GetEntityComponents().Add(&entityComponent); err != nil {
+	if err != nil {
 		var errCode hagallpb.ErrorCode
 		switch errors.Type(err) {
 		case hwebsocket.ErrEntityComponentTypeAlreadyAdded:
@@ -642,19 +647,6 @@ func (h *RealtimeHandler) HandleEntityComponentAdd(ctx context.Context, respond 
 			Timestamp: timestamppb.Now(),
 			RequestId: req.RequestId,
 			Code:      errCode,
-		})
-		return nil
-	}
-
-	// The entity may have been removed by its owner since it was looked up;
-	// the component must not outlive it.
-	if _, ok := session.EntityByID(entity.ID); !ok {
-		session.GetEntityComponents().Delete(entityComponent.EntityComponentTypeId, entity.ID)
-		respond.Send(&hagallpb.ErrorResponse{
-			Type:      hagallpb.MsgType_MSG_TYPE_ERROR_RESPONSE,
-			Timestamp: timestamppb.Now(),
-			RequestId: req.RequestId,
-			Code:      hagallpb.ErrorCode_ERROR_CODE_NOT_FOUND,
 		})
 		return nil
 	}
